@@ -355,6 +355,11 @@ func vf40Directed(t testing.TB, run int, closer string) *vf40Run {
 		spawn("reload", func() string { pm.ReloadPathConfs(vf40Confs(2)); return "ok" }) // cold change: the path is closed
 		// a second request that needs the manager loop: it can only be served after the close
 		spawn("apilist", func() string { _, err := pm.APIPathsList(); if err != nil { return vfpErrKind(err) }; return "ok" })
+	case "hotreload":
+		// only a hot-reloadable field changes: the path stays, the new configuration is handed to its loop,
+		// which is parked - the manager loop must stay free meanwhile (it is needed by the parked path next)
+		spawn("reload", func() string { pm.ReloadPathConfs(vf40Confs(8)); return "ok" })
+		spawn("apilist", func() string { _, err := pm.APIPathsList(); if err != nil { return vfpErrKind(err) }; return "ok" })
 	case "shutdown":
 		sd.Start = clock.Add(1)
 		go func() { pm.close(); close(shutdownDone) }()
@@ -401,8 +406,8 @@ func TestVerif_C40_Directed(t *testing.T) {
 	defer out.Close()
 	n := verifrt.Param("REPEAT", 3)
 	for i := 0; i < n; i++ {
-		for j, closer := range []string{"reload", "shutdown"} {
-			r := vf40Directed(t, -(1 + 2*i + j), closer)
+		for j, closer := range []string{"reload", "shutdown", "hotreload"} {
+			r := vf40Directed(t, -(1 + 3*i + j), closer)
 			out.Emit(r)
 			if r.Dump != "" {
 				return
